@@ -3,6 +3,7 @@ package props
 import (
 	"fmt"
 	"strings"
+	"time"
 
 	"verif.local/mc/coop"
 	"verif.local/mc/world"
@@ -202,7 +203,68 @@ func init() {
 			for _, sc := range c07Scenarios(tier) {
 				jobs = append(jobs, ExploreJob("C07", sc, oracleC07))
 			}
-			return jobs
+			return append(jobs, c07FaultJob())
 		}})
 	replayers["C07"] = func(tier string, v coop.Violation) int { return replayExplore("C07", c07Scenarios(tier), oracleC07, v) }
+}
+
+// c07FaultJob: a sized pool that is full of pre-allocated (reserved) IPs; every API call of a pod's Filter fails once (every
+// index k), the scheduler retries, a pod of a second deployment follows: the pool never holds more IPs than its size.
+func c07FaultJob() Job {
+	name := "pool/sized-pool-filter-with-failing-call"
+	return Job{Name: name, Weight: 2, Run: func(deadline time.Time) *ScenResult {
+		t0 := time.Now()
+		r := newCaseResult()
+		for _, size := range []int{1, 2} {
+			build := func() (*world.World, world.PodSpec, world.PodSpec) {
+				w := world.New(cfgOnePool(3, false))
+				if err := w.Start(); err != nil {
+					panic(err)
+				}
+				w.SetDeployment("ns", "d", 2)
+				w.SetDeployment("ns", "e", 2)
+				w.PoolPost("pl", size, true)
+				x, y := poolPod("d", 0), poolPod("e", 0)
+				w.CreatePod(x)
+				w.CreatePod(y)
+				return w, x, y
+			}
+			w, x, _ := build()
+			if poolCount(w) != size {
+				panic(fmt.Sprintf("pre-allocation gave %d IPs for size %d", poolCount(w), size))
+			}
+			w.ResetFault(0)
+			_, _ = w.Filter(x.Key())
+			n := w.FaultCount()
+			for k := 0; k <= n; k++ {
+				if time.Now().After(deadline) {
+					r.exhausted = false
+					break
+				}
+				w, x, y := build()
+				steps := []struct {
+					name string
+					f    func()
+				}{
+					{fmt.Sprintf("Filter(x) with API call %d failing", k), func() { w.ResetFault(k); _, _ = w.Filter(x.Key()); w.ResetFault(0) }},
+					{"Filter(x) again", func() { _, _ = w.Filter(x.Key()) }},
+					{"schedule x", func() { _, _ = w.Schedule(x.Key()) }},
+					{"schedule y", func() { _, _ = w.Schedule(y.Key()) }},
+				}
+				var done []string
+				for _, s := range steps {
+					s.f()
+					done = append(done, s.name)
+					r.evals++
+					desc := fmt.Sprintf("pool of size %d filled by pre-allocation; %s", size, strings.Join(done, "; "))
+					r.distinct[hashOf(size, k, len(done), poolCount(w))] = true
+					if c := poolCount(w); c > size {
+						r.violate("C07", name, "dppool", "pool-grew-beyond-size", "filter-with-failing-call", fmt.Sprintf("%s: the pool holds %d IPs: %v", desc, c, allocOnly(w.MemDump())), []string{desc})
+						break
+					}
+				}
+			}
+		}
+		return r.toScen(name, t0, map[string]int{"faults": 1})
+	}}
 }
